@@ -570,11 +570,14 @@ def run(rep):
         got = explore(rep, model, scn, thorough, stats, viol, pols=pols, base_canon=ref)
         base[scn["name"]] = ref or got
     rep.sample({"scenario": scenarios[1]["name"], "ops": scenarios[1]["ops"], "policies": "whole, 1-/2-/7-byte reads, every single cut, random cuts"})
-    ob_s = L.run_scenario(decorate(scenarios[1], [3], L.FAMILIES["SGR"]), "sync", ("bytes", 1))
-    rep.sample({"scenario": "send_input-strict [SGR@3] 1-byte reads", "stream": ob_s["stream"].hex(), "reads": len(ob_s["ops"][0]["reads"]),
-                "result": ob_s["ops"][0]["result"][1].hex(), "writes": [w.hex() for w in ob_s["ops"][0]["writes"]]})
-    ob_s = L.run_scenario([x for x in scenarios if x["name"] == "telnet-login"][0], "async", ("cuts", [7, 40]))
-    rep.sample({"scenario": "telnet-login cuts at 7, 40 (asyncio)", "completion": ob_s["ops"][0]["kind"], "writes": [w.hex() for w in ob_s["all_writes"]]})
+    try:    # two illustrative samples for the evidence file; on a broken tree an operation may not complete — never fatal
+        ob_s = L.run_scenario(decorate(scenarios[1], [3], L.FAMILIES["SGR"]), "sync", ("bytes", 1))
+        rep.sample({"scenario": "send_input-strict [SGR@3] 1-byte reads", "stream": ob_s["stream"].hex(), "reads": len(ob_s["ops"][0]["reads"]),
+                    "result": ob_s["ops"][0]["result"][1].hex(), "writes": [w.hex() for w in ob_s["ops"][0]["writes"]]})
+        ob_s = L.run_scenario([x for x in scenarios if x["name"] == "telnet-login"][0], "async", ("cuts", [7, 40]))
+        rep.sample({"scenario": "telnet-login cuts at 7, 40 (asyncio)", "completion": ob_s["ops"][0]["kind"], "writes": [w.hex() for w in ob_s["all_writes"]]})
+    except Exception as e:  # noqa
+        rep.notes.append("evidence sample could not be produced: %r" % (e,))
 
     # decorations: CR and every sequence family at every character boundary of the (undecorated) stream
     deco_scn = [s for s in scenarios if s["name"] in (
